@@ -10,6 +10,12 @@ Search:       (a) component level: real describe_tree -> real fstree_from_file_s
               (b) tool level: tar2sqfs image with nasty names -> rdsquashfs --describe (with/without
               --unpack-root) + rdsquashfs --unpack-path / -> gensquashfs --pack-file -> both images
               listed through sqfs2tar | python tarfile and compared.
+Tie (image level, exact): for every round trip of (b) the composed model of coq/ImgDescribe (extracted in
+              ExtractC16Img.v: describe -> parser -> fstree_add_generic on the C11 fstree -> fstree_post_process ->
+              ImgPost.to_img -> Img.serialize_fstree) is given the tree vlib/sqfsimg.py reads from the first image and
+              must predict (1) the listing rdsquashfs --describe printed, byte for byte, and (2) the uncompressed
+              inode table, directory table, id table and root reference of the image gensquashfs --pack-file wrote
+              (file inodes: location fields taken from that image; tables larger than one metadata block: skipped).
 """
 import hashlib
 import io
@@ -25,6 +31,7 @@ import tempfile
 
 from vlib import build as B
 from vlib import core
+from vlib import sqfsimg
 
 HERE = os.path.dirname(os.path.abspath(__file__))
 LEVEL = "proof"
@@ -610,7 +617,127 @@ def count_socks(tools, img):
     return sum(1 for l in out.split(b"\n") if l.startswith(b"sock "))
 
 
-def tool_oracle(ctx, tools, tree, uroot_name, workdir):
+# --------------------------------------------------------------------------
+# image level tie: the composed model of coq/ImgDescribe vs the two real tools
+# --------------------------------------------------------------------------
+S_IF_BY_TYPE = {1: S_IFDIR, 2: S_IFREG, 3: S_IFLNK, 4: S_IFBLK, 5: S_IFCHR, 6: S_IFIFO, 7: S_IFSOCK}
+
+
+def _meta_payloads(ms):
+    out, off, size = [], 0, ms.limit - ms.base
+    while off < size:
+        d, nxt = ms.block(off)
+        out.append(d)
+        off = nxt
+    return out
+
+
+def _image_tables(im):
+    """(inode table payload blocks, directory table payload blocks) of a parsed image"""
+    iblk = _meta_payloads(im.inodes)
+    cands = [l for (_, locs, _) in getattr(im, "table_blocks", []) for l in locs]
+    if getattr(im, "xattr_kv_start", None) is not None:
+        cands.append(im.xattr_kv_start)
+    cands = [c for c in cands if c >= im.super["dir_table_start"]]
+    dend = min(cands) if cands else im.dirs.limit
+    return iblk, _meta_payloads(sqfsimg.MetaStream(im, im.super["dir_table_start"], dend))
+
+
+def _stored_payload(hexs_):
+    b = b"" if hexs_ == "=" else bytes.fromhex(hexs_)
+    out, i = [], 0
+    while i < len(b):
+        h = b[i] | (b[i + 1] << 8)
+        if not h & 0x8000:
+            raise ValueError("model wrote a compressed block")
+        out.append(b[i + 2:i + 2 + (h & 0x7FFF)])
+        i += 2 + (h & 0x7FFF)
+    return b"".join(out)
+
+
+class ImageLeg:
+    """what a reader finds in image a -> model: listing + tables of the re-packed image; compared with the real
+    listing and the real image b"""
+
+    def __init__(self, drv):
+        self.drv = drv
+        self.runs = 0
+        self.listings_equal = 0
+        self.tables_exact = 0
+        self.tables_skipped = 0
+        self.table_bytes = 0
+        self.fails = []          # (kind, what, detail)
+
+    def reader_tree(self, img_path):
+        im = sqfsimg.Image(open(img_path, "rb").read())
+
+        def mk(name, n):
+            t = Node(name, S_IF_BY_TYPE[n.type] | (n.mode & 0o7777), n.uid, n.gid, n.target or b"", n.dev or 0)
+            if n.type == sqfsimg.T_DIR:
+                ents, _ = im.readdir(n)
+                t.children = [mk(nm, im.inode(ref)) for nm, ref, typ, ino in ents]
+            return t
+        return mk(b"", im.inode(im.super["root_ref"]))
+
+    def run(self, img_a, listing, uroot, img_b, variant):
+        self.runs += 1
+        tree = self.reader_tree(img_a)
+        imb = sqfsimg.Image(open(img_b, "rb").read())
+        iblk, dblk = _image_tables(imb)
+        fb = []
+        for path, n in imb.walk().items():
+            if n.type == sqfsimg.T_FILE:
+                ext = 1 if (n.sparse or n.blocks_start > 0xFFFFFFFF or n.size > 0xFFFFFFFF) else 0
+                bl = list(n.block_sizes or [])
+                fb.append("%s %d %d %d %d %d %d %d %s" % (hx(path), ext, n.blocks_start, n.size, n.sparse or 0, n.frag_idx,
+                                                        n.frag_off, len(bl), " ".join(str(x) for x in bl)))
+        line = "R %s 0 0 %d 493 %d %s %s" % ("-" if uroot is None else hx(uroot), imb.super["mod_time"], len(fb),
+                                           " ".join(f.strip() for f in fb), tree.line())
+        r = subprocess.run([self.drv], input=(line + "\n").encode(), stdout=subprocess.PIPE, stderr=subprocess.PIPE)
+        if r.returncode != 0:
+            raise RuntimeError("C16 image model driver failed: " + r.stderr.decode()[-400:])
+        w = r.stdout.decode().split()
+        detail = dict(variant=variant, tree=tree.to_json(), uroot=None if uroot is None else uroot.hex())
+        if len(w) < 3 or w[0] != "0":
+            self.fails.append(("describe", "the model's describe fails on the tree read from the image (%r)" % (w[:1],), detail))
+            return
+        mlist = unhx(w[1])
+        if mlist != listing:
+            k = next((i for i, (a, b) in enumerate(zip(mlist, listing)) if a != b), min(len(mlist), len(listing)))
+            self.fails.append(("listing", "rdsquashfs --describe output differs from DescribeModel.describe on the tree sqfsimg reads "
+                               "from the image, at byte %d: tool %r model %r" % (k, listing[max(0, k - 20):k + 20], mlist[max(0, k - 20):k + 20]),
+                               detail))
+            return
+        self.listings_equal += 1
+        if w[2] != "0" or len(w) < 4 or w[3] != "0":
+            self.fails.append(("repack", "gensquashfs accepted the listing but the model's parser / fstree / post processing refuses it "
+                               "(%r)" % (w[2:4],), detail))
+            return
+        if len(iblk) != 1 or len(dblk) > 1:
+            self.tables_skipped += 1
+            return
+        if len(w) < 12 or w[4] != "T":
+            self.fails.append(("tables", "the model's serializer fails: %r" % (w[4:6],), detail))
+            return
+        mi, md = _stored_payload(w[5]), _stored_payload(w[7])
+        mids = [int(x) for x in w[9].split(",")] if w[9] else []
+        ri, rd = b"".join(iblk), b"".join(dblk)
+        for nm, m, rr in (("inode table", mi, ri), ("directory table", md, rd)):
+            if m != rr:
+                k = next((i for i, (a, b) in enumerate(zip(m, rr)) if a != b), min(len(m), len(rr)))
+                self.fails.append(("tables", "%s of the re-packed image differs from the model's prediction at byte %d (model %d bytes, "
+                                   "image %d bytes): model %s image %s" % (nm, k, len(m), len(rr), m[max(0, k - 8):k + 8].hex(),
+                                                                         rr[max(0, k - 8):k + 8].hex()), detail))
+                return
+        if mids != list(imb.ids) or int(w[11]) != imb.super["root_ref"]:
+            self.fails.append(("tables", "id table / root reference: model %r %s image %r %d" % (mids, w[11], list(imb.ids),
+                                                                                                imb.super["root_ref"]), detail))
+            return
+        self.tables_exact += 1
+        self.table_bytes += len(ri) + len(rd)
+
+
+def tool_oracle(ctx, tools, tree, uroot_name, workdir, imgleg=None):
     """image(tree) -> describe (+unpack) -> pack file -> image'; compare listings. Returns None or (sig, what, detail)."""
     os.makedirs(workdir)
     tarp = os.path.join(workdir, "in.tar")
@@ -664,6 +791,11 @@ def tool_oracle(ctx, tools, tree, uroot_name, workdir):
         if got is None:
             results.append(("tool:list2:" + variant, e, dict(variant=variant)))
             continue
+        if imgleg is not None:
+            try:
+                imgleg.run(img, listing, os.fsencode(unp) if variant == "unpack-root" else None, img2, variant)
+            except (sqfsimg.ParseError, RuntimeError, ValueError, IndexError) as ex:
+                imgleg.fails.append(("machinery", "image leg could not be evaluated: %r" % (ex,), dict(variant=variant)))
         if got != ref:
             for p in sorted(set(ref) | set(got)):
                 if ref.get(p) != got.get(p):
@@ -907,10 +1039,16 @@ def run(ctx):
     # ---------------- search: tool level ----------------
     tool_runs = 0
     tool_bad = 0
+    imgleg = None
+    try:
+        with core.Lock("extract-C16img"):
+            imgleg = ImageLeg(core.build_model_driver("C16img", "ExtractC16Img.v", os.path.join(HERE, "driver_img.ml")))
+    except RuntimeError as ex:
+        ctx.proof_broken.append("extraction of the composed model (ExtractC16Img.v) failed: %s" % (str(ex)[-600:],))
     for i, t in enumerate(t_trees):
         wd = os.path.join(ctx.scratch, "tool%d" % i)
         uname = ["unp", "un pack", "u\\n\"p\tack", "unp"][i % 4]
-        res = tool_oracle(ctx, info["tools"], t, uname, wd)
+        res = tool_oracle(ctx, info["tools"], t, uname, wd, imgleg)
         tool_runs += 1
         shutil.rmtree(wd, ignore_errors=True)
         if res is None:
@@ -929,6 +1067,22 @@ def run(ctx):
     ctx.log("tool oracle done: %d round trips, %d failed" % (tool_runs, tool_bad))
     ctx.coverage["tool_roundtrips"] = tool_runs
     ctx.coverage["tool_roundtrips_failed"] = tool_bad
+    if imgleg is not None:
+        ctx.log("image level tie: %d round trips, listing predicted byte for byte in %d, tables predicted byte for byte in %d "
+                "(%d bytes), %d with multi-block tables skipped, %d broken"
+                % (imgleg.runs, imgleg.listings_equal, imgleg.tables_exact, imgleg.table_bytes, imgleg.tables_skipped, len(imgleg.fails)))
+        ctx.coverage["image_tie"] = dict(roundtrips=imgleg.runs, listings_equal=imgleg.listings_equal, tables_exact=imgleg.tables_exact,
+                                         table_bytes=imgleg.table_bytes, tables_skipped=imgleg.tables_skipped, broken=len(imgleg.fails))
+        ctx.trusted.append("props/C16/driver_img.ml; vlib/sqfsimg.py (reads the tree of the first image and the tables of the second)")
+        kinds = set()
+        for kind, what, detail in imgleg.fails:
+            if kind in kinds:
+                continue
+            kinds.add(kind)
+            ctx.tie_broken.append("image:" + kind)
+            ctx.violation("tie-image:" + kind, "correspondence coq/ImgDescribe (composed model) vs rdsquashfs --describe | gensquashfs "
+                          "--pack-file broken: " + what, dict(kind="tool", correspondence="props/C16 image level tie", **detail),
+                          no_input=True)
 
     # ---------------- tie broken => say so (the searches above have already run) ----------------
     concrete = any(not v["no_input"] for v in ctx.violations)
